@@ -70,10 +70,14 @@ type Run struct {
 	Tier  string
 	Keep  bool
 	Check string
-	mu    sync.Mutex // sink callbacks run on goroutines of the system under test
-	res   Result
-	th    uint64
-	lines []string
+	// OnlyProperty, when set, makes the run report violations of that property
+	// only (C29 re-runs other properties' workloads under the race detector);
+	// deadlocks and hangs found by any scenario count as that property's.
+	OnlyProperty string
+	mu           sync.Mutex // sink callbacks run on goroutines of the system under test
+	res          Result
+	th           uint64
+	lines        []string
 }
 
 func newRun(t *testing.T, check, tier string, tape *Tape, keep bool) *Run {
@@ -111,6 +115,15 @@ func (r *Run) logLocked(format string, args ...any) {
 func (r *Run) Violate(property, oracle string, attrs map[string]string, format string, args ...any) {
 	r.mu.Lock()
 	defer r.mu.Unlock()
+	if r.OnlyProperty != "" && property != r.OnlyProperty {
+		if oracle != "deadlock" && oracle != "hang" {
+			r.logLocked("(ignored here: %s %s)", property, oracle)
+			return
+		}
+		attrs = cloneAttrs(attrs)
+		attrs["found_by"] = property
+		property = r.OnlyProperty
+	}
 	r.logLocked("VIOLATION %s %s %v: "+format, append([]any{property, oracle, attrsString(attrs)}, args...)...)
 	if r.res.Verdict == "infra" {
 		return
@@ -151,6 +164,25 @@ func (r *Run) Fault(kind string) {
 	r.res.Faults[kind]++
 	r.mu.Unlock()
 }
+func (r *Run) FaultN(kind string, n int) {
+	if n <= 0 {
+		return
+	}
+	r.mu.Lock()
+	r.res.Faults[kind] += n
+	r.mu.Unlock()
+}
+
+// SinkLog is Log for sink callbacks, which run on goroutines of the system
+// under test. In race builds it does nothing: taking the trace mutex there
+// would order the query's goroutine after the controller and could hide races.
+func (r *Run) SinkLog(format string, args ...any) {
+	if raceBuild {
+		return
+	}
+	r.Log(format, args...)
+}
+
 func (r *Run) Probe(name string) {
 	r.mu.Lock()
 	r.res.Probes[name]++
@@ -205,20 +237,28 @@ var checks = map[string]CheckFn{}
 func register(name string, fn CheckFn) { checks[name] = fn }
 
 // execute runs one check once, converting harness panics into infra results.
+// inflight is the run being executed (the race detector aborts the test function
+// at the end of the bubble in which it saw a race; the worker's deferred summary
+// writer then needs the tape and trace of that run).
+var inflight *Run
+
 func execute(t *testing.T, check, tier string, tape *Tape, keep bool) (res *Result) {
 	fn, ok := checks[check]
 	if !ok {
 		fmt.Fprintf(os.Stderr, "unknown check %q\n", check)
 		os.Exit(2)
 	}
-	r := newRun(t, check, tier, tape, keep)
+	r := newRun(t, check, tier, tape, keep || raceBuild)
+	inflight = r
 	defer func() {
 		if p := recover(); p != nil {
 			r.Infra("harness panic: %v", p)
 			res = r.finish()
+			inflight = nil
 		}
 	}()
 	fn(r)
+	inflight = nil
 	return r.finish()
 }
 
